@@ -8,7 +8,7 @@ from vmon.oracle import lmpread
 
 PROPERTY = "C13"
 RULE = ("Generated structures: orthorhombic or LAMMPS-tilted cell (all tilt-sign combinations), 1-14 atoms, 1-4 types "
-        "per kind, coefficient tables present/absent per kind, coefficient strings of 1-5 tokens with zero or one "
+        "per kind (every sixth case: 12-39 atoms and 10-30 types per kind, i.e. two-digit type ids), coefficient tables present/absent per kind, coefficient strings of 1-5 tokens with zero or one "
         "trailing comment, negative charges and coordinates (atoms also outside the box), both atom styles. Each "
         "file written by the real save_lmpdat is parsed by the harness's independent reader (and ASE for cell and "
         "positions) and compared field by field with the structure; then read back by the real load_lmpdat and "
@@ -32,7 +32,7 @@ def cases(tier, seed):
     out = []
     for j in range(n):
         out.append({"s": int(rng.integers(1 << 30)), "style": ["full", "atomic"][j % 2], "cell": ["ortho", "tri"][(j // 2) % 2],
-                    "tilt_signs": [(j // 4) % 2, (j // 8) % 2, (j // 16) % 2], "via": ["method", "save_load_path", "save_load_fileobj"][j % 3]})
+                    "tilt_signs": [(j // 4) % 2, (j // 8) % 2, (j // 16) % 2], "via": ["method", "save_load_path", "save_load_fileobj"][j % 3], "many_types": j % 6 == 5})
     return out
 
 
@@ -51,9 +51,11 @@ def coeff_string(rng, tag):
 def build(rng, case):
     from mofun import Atoms
     masses = atomsgen.real_masses()
-    n = int(rng.integers(1, 15))
-    nt = int(rng.integers(1, 5))
-    els = [atomsgen.ELEMENT_POOL[int(i)] for i in rng.choice(len(atomsgen.ELEMENT_POOL), size=nt, replace=False)]
+    many = case.get("many_types", False)       # type ids with two digits: 10..30 types per kind
+    n = int(rng.integers(1, 15)) if not many else int(rng.integers(12, 40))
+    nt = int(rng.integers(1, 5)) if not many else int(rng.integers(10, 31))
+    pool = atomsgen.ELEMENT_POOL if not many else [e for e in masses if e not in ("Cm", "Bk")][:60]
+    els = [pool[int(i)] for i in rng.choice(len(pool), size=nt, replace=False)]
     a, b, c = rng.uniform(6, 20, 3)
     if case["cell"] == "ortho":
         cell = np.diag([a, b, c])
@@ -69,10 +71,10 @@ def build(rng, case):
     if rng.integers(2):
         kw["pair_coeffs"] = [coeff_string(rng, "p%d" % t) for t in range(nt)]
     for kind in atomsgen.KNAMES:
-        terms = atomsgen.random_terms(rng, n, atomsgen.WIDTH[kind], int(rng.integers(0, 6)))
+        terms = atomsgen.random_terms(rng, n, atomsgen.WIDTH[kind], int(rng.integers(0, 6)) if not many else int(rng.integers(10, 40)))
         if not terms:
             continue
-        k = int(rng.integers(1, 5))
+        k = int(rng.integers(1, 5)) if not many else int(rng.integers(10, 31))
         kw[atomsgen.ARR[kind]] = terms
         kw["%s_types" % kind] = [int(x) for x in rng.integers(0, k, len(terms))]
         if rng.integers(3) > 0:
@@ -281,6 +283,13 @@ def run_case(case, ctx):
     st.seen("style", style)
     st.seen("cell", case["cell"] + ("" if case["cell"] == "ortho" else str(case["tilt_signs"])))
     st.seen("via", case["via"])
+    if case.get("many_types"):
+        st.count("files_with_two_digit_type_ids")
+        for k in atomsgen.KNAMES:
+            if len(getattr(a, "%s_type_coeffs" % k)) >= 10:
+                st.seen("two_digit_table", k)
+        if len(a.pair_coeffs) >= 10:
+            st.seen("two_digit_table", "pair")
     ntab = sum(1 for k in atomsgen.KNAMES if len(getattr(a, "%s_type_coeffs" % k)))
     for k in atomsgen.KNAMES:
         if len(getattr(a, "%s_type_coeffs" % k)):
@@ -299,6 +308,8 @@ def requirements(stats, tier):
         need.append("too few files observed")
     if stats.nseen("cell") < 9:
         need.append("not all tilt-sign combinations observed (%d of 9 cell classes)" % stats.nseen("cell"))
+    if stats.nseen("two_digit_table") < 5:
+        need.append("coefficient tables with >= 10 entries observed for only %d of 5 sections" % stats.nseen("two_digit_table"))
     if stats.nseen("style") < 2 or stats.nseen("tables") < 5:
         need.append("both styles and all five coefficient sections must be observed")
     if stats.get("ase_agreed") < stats.get("files_written") * 0.9:
